@@ -128,6 +128,18 @@ class FileWorld:
             self.stamps[os.path.dirname(p)] = self.clock.tick()
             self._apply()
 
+    def rmdir(self, rel):
+        """Remove a directory with everything in it; the parent's time
+        advances."""
+        p = self.path(rel)
+        if os.path.isdir(p):
+            shutil.rmtree(p)
+            for q in [q for q in self.stamps
+                      if q == p or q.startswith(p + os.sep)]:
+                del self.stamps[q]
+            self.stamps[os.path.dirname(p)] = self.clock.tick()
+            self._apply()
+
     def exists(self, rel):
         return os.path.exists(self.path(rel))
 
